@@ -31,6 +31,29 @@ pub struct Container {
     packs: Vec<OnceLock<ContentPack>>,
 }
 
+/// A pack ends with its header written backward.
+/// Check that what we found at `origin` is the header of a pack which really is in the reader.
+pub(crate) fn check_pack_tail(
+    reader: &Reader,
+    origin: Offset,
+    pack_header: &PackHeader,
+) -> Result<()> {
+    let tail_end = origin + pack_header.file_size;
+    if pack_header.file_size < Size::new(128) || tail_end.into_u64() > reader.size().into_u64() {
+        return Err(format_error!("Pack is larger than the file containing it"));
+    }
+    let mut buffer_reader = [0u8; 64];
+    reader
+        .create_stream(tail_end - Size::new(64), Size::new(64), false)?
+        .read_exact(&mut buffer_reader)?;
+    buffer_reader.reverse();
+    let end_reader: Reader = buffer_reader.into();
+    match end_reader.parse_block_at::<PackHeader>(Offset::zero()) {
+        Ok(tail) if tail == *pack_header => Ok(()),
+        _ => Err(format_error!("Pack header and pack tail differ")),
+    }
+}
+
 /// Open the reader as a container pack.
 /// Blindly opening from a Reader is a bit complex as:
 /// - We don't know what we will open
@@ -40,7 +63,12 @@ pub fn open_as_container_pack(reader: Reader) -> Result<ContainerPack> {
     // First try to check without Check as we want a nice message to the user if version has changed.
     reader.parse_block_unchecked_at::<PackHeader>(Offset::zero())?;
     let (pack_header, offset) = match reader.parse_block_at::<PackHeader>(Offset::zero()) {
-        Ok(pack_header) => (pack_header, Offset::zero()),
+        Ok(pack_header) => {
+            if pack_header.magic != PackKind::Container {
+                check_pack_tail(&reader, Offset::zero(), &pack_header)?;
+            }
+            (pack_header, Offset::zero())
+        }
         Err(_) => {
             //Check at end
             if reader.size() < Size::new(64) {
